@@ -176,20 +176,51 @@ def mkCall (cls : String) (args : List (List Num)) (c : Cmd) : Except Err Call :
   | none => .error .notImplemented
   | some n => .ok { name := n, args := args, modes := c.regs }
 
+/-- `Gate.apply` of an ordinary gate: the calls it makes (a gate does not change the run state) -/
+def applyGate1 (free : String → Option Rat) (vals : Nat → Option Val) (c : Cmd) : Except Err (List Call) :=
+  match gateArgs c.pars c.dagger with
+  | none => .ok []
+  | some ps =>
+    match evalPars vals free ps with
+    | .error e => .error e
+    | .ok args =>
+      match mkCall c.cls args c with
+      | .error e => .error e
+      | .ok call => .ok [call]
+
+def applyGates (free : String → Option Rat) (vals : Nat → Option Val) : List Cmd → Except Err (List Call)
+  | [] => .ok []
+  | c :: rest =>
+    match applyGate1 free vals c with
+    | .error e => .error e
+    | .ok t1 =>
+      match applyGates free vals rest with
+      | .error e => .error e
+      | .ok t2 => .ok (t1 ++ t2)
+
+/-- what `MZgate.apply` (repaired code) applies for a daggered gate: `self.decompose(reg)`, i.e. the
+reversed products of `_decompose` with flipped flags -/
+def mzDaggerSeq (pin pex : Par) (a b : Nat) : List Cmd :=
+  [{ cls := "BSgate", pars := [.num ⟨0, 1/4⟩, .num ⟨0, 1/2⟩], regs := [a, b], dagger := true },
+   { cls := "Rgate", pars := [pin], regs := [a], dagger := true },
+   { cls := "BSgate", pars := [.num ⟨0, 1/4⟩, .num ⟨0, 1/2⟩], regs := [a, b], dagger := true },
+   { cls := "Rgate", pars := [pex], regs := [a], dagger := true }]
+
 /-- `cmd.op.apply(cmd.reg, backend)` for one command; returns the new state and the calls made -/
 def applyCmd (free : String → Option Rat) (outc : Nat → List Rat) (st : RunSt) (c : Cmd) :
     Except Err (RunSt × List Call) :=
   match c.kind with
   | .gate =>
-    match gateArgs c.pars c.dagger with
-    | none => .ok (st, [])
-    | some ps =>
-      match evalPars st.vals free ps with
+    match c.cls == "MZgate" && c.dagger, c.pars, c.regs with
+    | true, [pin, pex], [a, b] =>
+      -- MZgate.apply: the inverse interferometer is applied element by element
+      match applyGates free st.vals (mzDaggerSeq pin pex a b) with
       | .error e => .error e
-      | .ok args =>
-        match mkCall c.cls args c with
-        | .error e => .error e
-        | .ok call => .ok (st, [call])
+      | .ok t => .ok (st, t)
+    | _, _, _ =>
+      match applyGate1 free st.vals c with
+      | .error e => .error e
+      | .ok t => .ok (st, t)
   | .plain =>
     match evalPars st.vals free c.pars with
     | .error e => .error e
